@@ -176,16 +176,15 @@ ReportCorrect ==
 \* Splitting theorem (no hidden state between calls): if a single call with max_iter = n performs n iterations
 \* (no early stop), then performing it as consecutive calls with max_iter = p[1], ..., p[r], p[1]+...+p[r] = n, ends in the
 \* same state, with the same final chi^2 and the same `converged` flag reported by the last call.
-Compositions(n) == UNION { [1..r -> 1..n] : r \in 1..n }
-RECURSIVE SumSeq(_)
-SumSeq(p) == IF Len(p) = 0 THEN 0 ELSE p[1] + SumSeq(Tail(p))
+RECURSIVE Compositions(_)
+Compositions(n) == IF n = 0 THEN { << >> } ELSE UNION { { <<k>> \o c : c \in Compositions(n - k) } : k \in 1..n }     \* 2^(n-1) sequences
 RECURSIVE RunSplit(_,_,_)
 RunSplit(st, s, parts) == IF Len(parts) = 1 THEN Outcome(st, s, parts[1])
                           ELSE RunSplit(st, Outcome(st, s, parts[1]).applied, Tail(parts))
 SplitTheorem ==
   \A st \in [1..(MaxStart + MaxIter) -> BOOLEAN] : \A s \in 0..MaxStart : \A n \in 1..MaxIter :
     FirstStop(st, s, 1, n) = 0 =>
-      \A parts \in { p \in Compositions(n) : SumSeq(p) = n } :
+      \A parts \in Compositions(n) :
         LET one == Outcome(st, s, n)  last == RunSplit(st, s, parts)
         IN last.applied = one.applied /\ last.converged = one.converged /\ last.final = one.final
 \* verbose occurs nowhere but in `rows`: nothing else can depend on it.
